@@ -230,7 +230,16 @@ def limits(F, R):
         adds = f.calls(r'mpmc::container::Container::<.*>::add$')
         oks = f.calls(r'Result::<.*>::ok$')
         n += 1
-        R.ob('FLOW', 'FLOW::%s::result-is-container-add.ok()' % fnkey(f), len(adds) == 1 and len(oks) == 1 and f.prov_operand(oks[0].args[0]).root[0] == 'call' and f.prov_operand(oks[0].args[0]).root[1].key() == adds[0].key() and oks[0].dest == [0],
+        ok = len(adds) == 1 and len(oks) == 1 and f.prov_operand(oks[0].args[0]).root[0] == 'call' and f.prov_operand(oks[0].args[0]).root[1].key() == adds[0].key() and oks[0].dest == [0]
+        if not ok and len(adds) == 1 and not oks:
+            # the same mapping written as a match: Some(payload of Ok) under the Ok arm, None under the Err arm, nothing else returned
+            some = [a for a in agg_sites(f, r'^core::option::Option$', 'Some') if a.node[1] == [0]]
+            none = [a for a in agg_sites(f, r'^core::option::Option$', 'None') if a.node[1] == [0]]
+            others = [s_ for s_ in f.sites if s_.i != 'T' and s_.node[0] == 'a' and s_.node[1] == [0] and s_ not in some and s_ not in none] + [s_ for s_ in f.sites if s_.is_call and s_.dest == [0]]
+            ok = bool(some) and bool(none) and not others and \
+                all(lib.under_arm(f, F, a, adds[0], ('Ok',)) and f.prov_operand(a.node[2][2][0]).root[0] == 'call' and f.prov_operand(a.node[2][2][0]).root[1].key() == adds[0].key() for a in some) and \
+                all(lib.under_arm(f, F, a, adds[0], ('Err',)) for a in none)
+        R.ob('FLOW', 'FLOW::%s::result-is-container-add.ok()' % fnkey(f), ok,
              'add_*_id returns Container::add(..).ok(): the limit refusal is the container\'s', adds[0].where if adds else f.file, f)
     R.floor('add_*_id functions', n, 8)
 
